@@ -6,6 +6,7 @@ is re-used from earlier collections (of this or of another aggregator). Helper l
 import Otel.C07.Lemmas
 import Otel.C07.LemmasColl
 import Otel.C07.LemmasDown
+import Otel.C07.Props
 namespace Otel.C07
 open Spec
 
@@ -122,6 +123,74 @@ theorem expo_downscale_in_place (b : Buckets) (δ : Nat) : b.downscaleInPlace δ
 
 example : Buckets.downscaleInPlace ⟨-6, [3, 1, 2, 3, 4, 5, 6, 7, 8, 9, 10]⟩ 2 = ⟨-2, [4, 14, 30, 10]⟩ ∧
     downLoop 4 2 10 1 [3, 1, 2, 3, 4, 5, 6, 7, 8, 9, 10] = [4, 14, 30, 10, 4, 5, 6, 7, 8, 9, 10] := by decide
+
+/-- the aggregator with several attribute sets is a family of independent single-set runs: every point ever
+reported — any attribute set, any collection, delta or cumulative, any cardinality limit — is the export of
+`run L maxSize maxScale vs` for some list `vs` of measurements, i.e. of exactly the single-set model all theorems
+of Props.lean are about (`expo_placement`, `expo_drops_only_on_underflow`, `expo_window_tight`, … apply to it) -/
+theorem coll_points_are_runs (L : Int → Val → Int) (c : Cfg) (ops : List Op) (dest : Slice DPoint) :
+    ∀ r ∈ (aggRun L c (AggSt.init dest) ops).reports, ∀ pv ∈ r,
+      ∃ a vs, pv = exportPoint c.noMinMax c.noSum a (run L c.maxSize c.maxScale vs).1 := by
+  intro r hr pv hpv
+  obtain ⟨a, p, ⟨vs, hp⟩, rfl⟩ := coll_points_are_accumulators L c
+    (fun p => ∃ vs, p = (run L c.maxSize c.maxScale vs).1) ⟨[], rfl⟩
+    (fun p v h => by
+      obtain ⟨vs, rfl⟩ := h
+      exact ⟨vs ++ [some v], by simp [run, runFrom, List.foldl_append, measure]⟩) ops dest r hr pv hpv
+  exact ⟨a, vs, by rw [hp]⟩
+
+/-! ## explicit-bucket histogram: collection into a re-used destination -/
+
+/-- output re-use for the explicit-bucket histogram: the points of a collection are the accumulators written
+over default points — nothing of the recycled destination (stale Sum/Min/Max of an aggregator with other
+`NoMinMax`/`noSum` flags, stale bounds and counts) survives -/
+theorem hcoll_independent_of_dest (noMinMax noSum : Bool) (bounds : List Int) (order : List (Nat × Hist))
+    (dest : Slice HDPoint) :
+    (hCollectInto noMinMax noSum bounds order dest).vis =
+      order.map (fun av => writeHPoint noMinMax noSum bounds default av.1 av.2) :=
+  hCollectInto_vis noMinMax noSum bounds order dest
+
+/-- the explicit-bucket aggregator with several attribute sets is a family of independent single-set runs (while
+the sum is collected): every point ever reported into any destination is the export of `histRun raw vs` for a
+non-empty list `vs` of measurements, and therefore satisfies every explicit-bucket clause of the statement
+(`histOK`: one more bucket than boundaries, counts sum to count, each value in its `(lower, upper]` bucket, exact
+sum/min/max) -/
+theorem hcoll_points_are_runs (delta : Bool) (limit : Nat) (raw : List Int) (noMinMax : Bool) (dest : Slice HDPoint)
+    (ops : List HOp) (hops : ∀ op ∈ ops, ∀ x y, op = HOp.fresh x y → y = false) :
+    ∀ r ∈ (hRun delta limit raw noMinMax false dest ops).reports, ∀ pt ∈ r,
+      ∃ a h vs nmm, vs ≠ [] ∧ histRun raw vs = some h ∧
+        pt = writeHPoint nmm false (sortBounds raw) default a h ∧
+        histOK raw (sortBounds raw) vs (some h) = true := by
+  have key : ∀ (ops : List HOp) (st : HSt), (∀ op ∈ ops, ∀ x y, op = HOp.fresh x y → y = false) →
+      HInv (sortBounds raw) st → HInv (sortBounds raw) (ops.foldl (hStep delta limit (sortBounds raw)) st) := by
+    intro ops
+    induction ops with
+    | nil => intro st _ h; exact h
+    | cons op r ih =>
+      intro st ho h
+      simp only [List.foldl_cons]
+      exact ih _ (fun o hm => ho o (List.mem_cons_of_mem _ hm))
+        (h.step delta limit _ st op (ho op List.mem_cons_self))
+  have inv := key ops ⟨[], dest, noMinMax, false, []⟩ hops
+    ⟨rfl, by intro x hx; simp at hx, by intro r hr; simp at hr⟩
+  intro r hr pt hpt
+  obtain ⟨a, h, vs, nmm, hne, hrun, hpt⟩ := inv.reported r hr pt hpt
+  refine ⟨a, h, vs, nmm, hne, hrun, hpt, ?_⟩
+  have := hist_ok raw vs
+  rw [show histRun raw vs = some h from hrun] at this
+  exact this
+
+/-- `hcoll_points_are_runs` is not vacuous: two attribute sets, a cardinality limit of 2 (the second set is folded
+into the overflow set 0), cumulative, two collections in different slot orders into a stale destination -/
+example : (hRun false 2 [10, 0] false false ⟨[⟨9, 9, [1], [9, 9], 99, some 1, some 2⟩], []⟩
+      [.meas 1 5, .meas 2 11, .meas 1 0, .collect [1, 0], .meas 2 (-3), .collect [0, 1]]).reports =
+    [[⟨1, 2, [0, 10], [1, 1, 0], 5, some 0, some 5⟩, ⟨0, 1, [0, 10], [0, 0, 1], 11, some 11, some 11⟩],
+     [⟨0, 2, [0, 10], [1, 0, 1], 8, some (-3), some 11⟩, ⟨1, 2, [0, 10], [1, 1, 0], 5, some 0, some 5⟩]] := by decide
+
+/-- another aggregator with `NoMinMax`/`noSum` takes over the destination: no stale sum or extrema -/
+example : (hRun true 0 [0] false false default
+      [.meas 1 5, .collect [1], .fresh true true, .meas 1 7, .collect [1]]).reports =
+    [[⟨1, 1, [0], [0, 1], 5, some 5, some 5⟩], [⟨1, 1, [0], [0, 1], 0, none, none⟩]] := by decide
 
 /-! ### non-vacuity -/
 
